@@ -12,7 +12,7 @@ import numpy as np
 from .. import arrays as A
 from .. import gen_geom as gg
 from .. import oracle_geom as og
-from ..ctx import exc_in_repo, short_exc
+from ..ctx import exc_in_repo, scribble, short_exc
 
 RULE = ("cases = (kind, subtype, element, measure, form); elements from hostile generators: "
         "rectilinear and star polygons (both orientations, holes, nested/touching parts), "
@@ -255,6 +255,11 @@ def check_case(ctx, case):
         if not all(gg.same_value(a, b) for a, b in zip(gg.pylist(arr), vals)) or len(arr) != n:
             ctx.count("form_values_differ")
             continue
+        # a caller may write into the arrays it was handed: the answers judged below come afterwards
+        for g_ in (lambda: arr.length, lambda: arr.area, lambda: arr.bounds):
+            ok, v_, tb = ctx.guarded(g_)
+            if ok:
+                ctx.count("caller_written_results", scribble(v_))
         ok, L, tb = ctx.guarded(lambda: np.asarray(arr.length))
         if not ok:
             rec_raise("length", L, tb)
